@@ -118,11 +118,20 @@ def observe(cfg, xs):
                 p4, h4 = nm0.test(x.copy())
                 h4 = [float(v) for v in np.asarray(h4, dtype=float).ravel()]
                 obs["u_late_differs"] = not (feq(float(p4), obs["p"]) and len(h4) == len(obs["hist"]) and all(feq(a, b) for a, b in zip(h4, obs["hist"])))
+            # u itself may be given as a Python int (u=1, u=2): same answer required (checked on the long samples, where an
+            # integer power or product would have room to overflow)
+            if cfg.get("paths") and fr(cfg["u"]).denominator == 1:
+                nmi = make(cfg)
+                nmi.u = int(fr(cfg["u"]))
+                p5, h5 = nmi.test(x.copy())
+                h5 = [float(v) for v in np.asarray(h5, dtype=float).ravel()]
+                if not (feq(float(p5), obs["p"]) and len(h5) == len(obs["hist"]) and all(feq(a, b) for a, b in zip(h5, obs["hist"]))):
+                    obs["int_differs"] = True
             # a sample whose values are whole numbers may arrive as an integer array (0/1 ballots): same answer required
             if all(v.denominator == 1 for v in xs):
                 p3, h3 = make(cfg).test(np.array([int(v) for v in xs], dtype=int))
                 h3 = [float(v) for v in np.asarray(h3, dtype=float).ravel()]
-                obs["int_differs"] = not (feq(float(p3), obs["p"]) and len(h3) == len(obs["hist"]) and all(feq(a, b) for a, b in zip(h3, obs["hist"])))
+                obs["int_differs"] = obs["int_differs"] or not (feq(float(p3), obs["p"]) and len(h3) == len(obs["hist"]) and all(feq(a, b) for a, b in zip(h3, obs["hist"])))
         except Exception as e:  # noqa
             obs["exc"] = f"{type(e).__name__}: {str(e)[:80]}"
         if cfg["test"] == "alpha_mart":
@@ -143,6 +152,14 @@ def observe(cfg, xs):
 def long_paths(cfg):
     """the 'long thin' family: every prefix of length <= P over the grid followed by a constant run of one grid value"""
     k1 = len(grid(cfg))
+    if cfg["paths"][0] == "tworun":  # a^i b^(L-i) for every i: one long run followed by another
+        L = cfg["paths"][1]
+        for a in range(k1):
+            for b in range(k1):
+                if a != b:
+                    for i in range(1, L):
+                        yield (a,) * i + (b,) * (L - i)
+        return
     P, L = cfg["paths"]
     for n in range(0, P + 1):
         for pre in itertools.product(range(k1), repeat=n):
@@ -273,9 +290,18 @@ def configs(tier, ro_values=(True,)):
 
 def long_configs(tier):
     """long samples (to length 24 / 40): short arbitrary prefix, then a constant run; populations of 40 / 64 or IID"""
-    P, L, N = (2, 24, 40) if tier == "quick" else (3, 40, 64)
+    P, L, N = (2, 24, 40) if tier == "quick" else (2, 160, 200)
     out = []
-    for u, t in (("1", "1/2"), ("5/4", "1/2")):
+    if tier == "thorough":  # two long runs, for a handful of methods
+        for test, estim, bet, kw in (("betting_mart", None, "fixed_bet", {"lam": "1"}), ("betting_mart", None, "agrapa", {"lam": "1/2"}),
+                                     ("alpha_mart", "shrink_trunc", None, {"eta": "3/4", "f": 1}), ("alpha_mart", None, None, {"eta": "3/4"}),
+                                     ("kaplan_kolmogorov", None, None, {"g": "1/8"}), ("wald_sprt", None, None, {"eta": "3/4"})):
+            out.append({"test": test, "estim": estim, "bet": bet, "kw": kw, "u": "1", "t": "1/2", "N": 150, "H": None, "k": 2, "D": 120,
+                        "paths": ["tworun", 120], "ro": True})
+        for test, estim, bet, kw in (("betting_mart", None, "fixed_bet", {"lam": "1"}), ("kaplan_markov", None, None, {"g": "1/8"}), ("kaplan_wald", None, None, {"g": "1/8"})):
+            out.append({"test": test, "estim": estim, "bet": bet, "kw": kw, "u": "1", "t": "1/2", "N": None, "H": 120, "k": 2, "D": 120,
+                        "paths": ["tworun", 120], "ro": True})
+    for u, t in ((("1", "1/2"), ("5/4", "1/2")) if tier == "quick" else (("1", "1/2"), ("5/4", "1/2"), ("2", "1/2"))):
         for finite in (True, False):
             for test, estim, bet, kw in _methods(u, t, finite, "quick"):
                 if test == "alpha_mart" and estim is None and kw:
